@@ -5,5 +5,5 @@ cd "$(dirname "$0")"
 mkdir -p evidence replays
 java -version >/dev/null 2>&1
 test -f /opt/veriftools/tla/tla2tools.jar
-/venv/bin/python -c "import networkx, numpy, jsonschema"
+/venv/bin/python -c "import networkx, numpy"
 echo setup ok
